@@ -16,7 +16,7 @@ package pool
 //@   ensures[C11] fifo_pool: ret0 != nil && ordering == 1 ==> dyntype(ret0.limiter, "*limiter.QueueBlockingLimiter") && poolQueue(ret0.limiter).backlog.ordering == "fifo"
 //@   ensures[C11] lifo_pool: ret0 != nil && ordering == 2 ==> dyntype(ret0.limiter, "*limiter.QueueBlockingLimiter") && poolQueue(ret0.limiter).backlog.ordering == "lifo"
 //@   ensures[C11,C19] random_pool: ret0 != nil && ordering != 1 && ordering != 2 ==> dyntype(ret0.limiter, "*limiter.BlockingLimiter") && as(ret0.limiter, "*limiter.BlockingLimiter").timeout == max(0, timeout)
-//@   ensures[C12,C13] queue_settings: ret0 != nil && (ordering == 1 || ordering == 2) ==> poolQueue(ret0.limiter).maxBacklogSize == uint64(ite(maxBacklog <= 0, 100, maxBacklog)) && poolQueue(ret0.limiter).maxBacklogTimeout == ite(max(0, timeout) == 0, 1000000000, max(0, timeout))
+//@   ensures[C12,C13] queue_settings: ret0 != nil && (ordering == 1 || ordering == 2) ==> (maxBacklog > 0 ==> poolQueue(ret0.limiter).maxBacklogSize == uint64(maxBacklog)) && (timeout > 0 ==> poolQueue(ret0.limiter).maxBacklogTimeout == timeout)
 //@   ensures[C19] gate_is_a_precise_strategy_at_the_pool_limit: ret0 != nil ==> ncalls("strategy.NewPreciseStrategy") == 1 && callarg("strategy.NewPreciseStrategy", 0, 0) == fixedLimit && callres("strategy.NewPreciseStrategy", 0, 0).limit == fixedLimit && callres("strategy.NewPreciseStrategy", 0, 0).inFlight == 0
 //@   ensures[C19] queue_wraps_the_gate: ret0 != nil && (ordering == 1 || ordering == 2) ==> dyntype(poolQueue(ret0.limiter).delegate, "*limiter.DefaultLimiter") && ref(poolDefault(poolQueue(ret0.limiter).delegate).strategy) == ref(callres("strategy.NewPreciseStrategy", 0, 0)) && ref(poolDefault(poolQueue(ret0.limiter).delegate).limit) == ref(callres("limit.NewFixedLimit", 0, 0))
 //@   ensures[C19] blocking_wraps_the_gate: ret0 != nil && ordering != 1 && ordering != 2 ==> dyntype(as(ret0.limiter, "*limiter.BlockingLimiter").delegate, "*limiter.DefaultLimiter") && ref(poolDefault(as(ret0.limiter, "*limiter.BlockingLimiter").delegate).strategy) == ref(callres("strategy.NewPreciseStrategy", 0, 0)) && ref(poolDefault(as(ret0.limiter, "*limiter.BlockingLimiter").delegate).limit) == ref(callres("limit.NewFixedLimit", 0, 0))
